@@ -77,7 +77,74 @@ func nilGuarded(v ssa.Value, at ssa.Instruction) bool {
 	return false
 }
 
+// ptrMayBeNil: the pointer is the nil constant, or the result of a library
+// function that returns a nil pointer on some path.
+func ptrMayBeNil(v ssa.Value, depth int) bool {
+	if depth > 4 {
+		return false
+	}
+	if _, isPtr := v.Type().Underlying().(*types.Pointer); !isPtr {
+		return false
+	}
+	switch x := v.(type) {
+	case *ssa.Const:
+		return x.IsNil()
+	case *ssa.Phi:
+		for _, e := range x.Edges {
+			if ptrMayBeNil(e, depth+1) {
+				return true
+			}
+		}
+	case *ssa.Call:
+		cal := x.Call.StaticCallee()
+		if cal == nil || fnPkg(cal) == nil || !IsLibPath(fnPkg(cal).Pkg.Path()) {
+			return false
+		}
+		for _, b := range cal.Blocks {
+			if ret, ok := terminator(b).(*ssa.Return); ok && len(ret.Results) >= 1 {
+				if ptrMayBeNil(returnOperand(ret, 0), depth+1) {
+					return true
+				}
+			}
+		}
+	}
+	return false
+}
+
+// typedNilOrigin: some origin of the interface value is a possibly-nil pointer
+// converted to the interface.
+func typedNilOrigin(v ssa.Value, seen map[ssa.Value]bool) bool {
+	if seen[v] {
+		return false
+	}
+	seen[v] = true
+	switch x := v.(type) {
+	case *ssa.MakeInterface:
+		return ptrMayBeNil(x.X, 0)
+	case *ssa.ChangeInterface:
+		return typedNilOrigin(x.X, seen)
+	case *ssa.Phi:
+		for _, e := range x.Edges {
+			if typedNilOrigin(e, seen) {
+				return true
+			}
+		}
+	case *ssa.UnOp:
+		if al, ok := x.X.(*ssa.Alloc); ok && x.Op == token.MUL {
+			for _, r := range *al.Referrers() {
+				if st, ok := r.(*ssa.Store); ok && st.Addr == ssa.Value(al) && typedNilOrigin(st.Val, seen) {
+					return true
+				}
+			}
+		}
+	}
+	return false
+}
+
 func (a *nonnil) mayNilAt(v ssa.Value, at ssa.Instruction) bool {
+	if typedNilOrigin(v, map[ssa.Value]bool{}) {
+		return true // an `== nil` test on the interface does not see a nil pointer inside it
+	}
 	if nilGuarded(v, at) {
 		return false
 	}
@@ -99,7 +166,9 @@ func (a *nonnil) mayNil(v ssa.Value, seen map[ssa.Value]bool) bool {
 			}
 		}
 	case *ssa.MakeInterface:
-		return false
+		// a nil pointer wrapped in an interface is not a nil interface: the
+		// callers' `== nil` tests do not see it, the next method call does
+		return ptrMayBeNil(v.X, 0)
 	case *ssa.ChangeInterface:
 		return a.mayNil(v.X, seen)
 	case *ssa.Call:
@@ -133,6 +202,81 @@ func (a *nonnil) mayNil(v ssa.Value, seen map[ssa.Value]bool) bool {
 		}
 	}
 	return false
+}
+
+// holesPossible: "" when some store into an element of the slice runs in every
+// iteration of a loop (it dominates every back edge of its loop), or every
+// path that skips it leaves the function with an error.
+func holesPossible(ms *ssa.MakeSlice) string {
+	var stores []*ssa.Store
+	var collect func(v ssa.Value, d int)
+	seen := map[ssa.Value]bool{}
+	collect = func(v ssa.Value, d int) {
+		if seen[v] || d > 4 || v.Referrers() == nil {
+			return
+		}
+		seen[v] = true
+		for _, ref := range *v.Referrers() {
+			switch x := ref.(type) {
+			case *ssa.IndexAddr:
+				if x.X == v {
+					for _, r2 := range *x.Referrers() {
+						if st, ok := r2.(*ssa.Store); ok && st.Addr == ssa.Value(x) {
+							stores = append(stores, st)
+						}
+					}
+				}
+			case *ssa.Phi:
+				collect(x, d+1)
+			case *ssa.Store:
+				// spilled to a local: follow the loads
+				if al, ok := x.Addr.(*ssa.Alloc); ok && x.Val == v {
+					for _, r2 := range *al.Referrers() {
+						if ld, ok := r2.(*ssa.UnOp); ok {
+							collect(ld, d+1)
+						}
+					}
+				}
+			}
+		}
+	}
+	collect(ms, 0)
+	if len(stores) == 0 {
+		return "no element of the slice is ever assigned"
+	}
+	for _, st := range stores {
+		b := st.Block()
+		// the loop containing the store: the innermost header that dominates b and is reachable from b
+		var header *ssa.BasicBlock
+		for h := b; h != nil; h = h.Idom() {
+			isH := false
+			for _, pd := range h.Preds {
+				if h.Dominates(pd) && (pd == b || blockReaches(b, pd, nil)) {
+					isH = true
+				}
+			}
+			if isH {
+				header = h
+				break
+			}
+		}
+		if header == nil {
+			continue
+		}
+		every := true
+		for _, pd := range header.Preds {
+			if !header.Dominates(pd) {
+				continue
+			}
+			if !(b == pd || b.Dominates(pd)) {
+				every = false
+			}
+		}
+		if every {
+			return ""
+		}
+	}
+	return "the slice is created with its full length and its elements are assigned only on some paths through the filling loop"
 }
 
 func ruleNonNil(p *Program, r *Reporter) {
@@ -216,6 +360,32 @@ func ruleNonNil(p *Program, r *Reporter) {
 					} else {
 						r.Ok(key, p.Pos(x.Pos()), "")
 					}
+				}
+			}
+		}
+	}
+	// slices of objects made with a length: every element assigned
+	for _, fn := range p.LibFns {
+		nth := 0
+		for _, b := range fn.Blocks {
+			for _, ins := range b.Instrs {
+				ms, ok := ins.(*ssa.MakeSlice)
+				if !ok {
+					continue
+				}
+				sl, ok := ms.Type().Underlying().(*types.Slice)
+				if !ok || !isObjectIface(sl.Elem()) {
+					continue
+				}
+				if k, ok := constInt(ms.Len); ok && k == 0 {
+					continue
+				}
+				nth++
+				key := fmt.Sprintf("%s/slice of objects %d made with a length has every element assigned", p.FnName(fn), nth)
+				if why := holesPossible(ms); why != "" {
+					r.Fail(key, p.Pos(ms.Pos()), why+": the slots that are not assigned stay nil objects inside an array the script can index, iterate or return — `return Tags[1];` then hands a nil object to Run, whose True() call panics outside the recover")
+				} else {
+					r.OkNT(key, p.Pos(ms.Pos()), "filled by a store that runs in every iteration of the filling loop")
 				}
 			}
 		}
@@ -598,8 +768,80 @@ func ruleRecursion(p *Program, r *Reporter) {
 			r.OkNT(key, p.Pos(comp[0].Pos()), "depth bounded by a guarded structure: "+why)
 			continue
 		}
+		if structuralTreeWalk(comp) {
+			r.OkNT(key, p.Pos(comp[0].Pos()), "structural recursion over a syntax tree: every recursive call descends into a field of the node it was given, so the depth is at most the depth of the tree, which only the parser builds (its own unguarded recursion is reported separately; these frames are smaller than the parser's)")
+			continue
+		}
 		r.Fail(key, p.Pos(comp[0].Pos()), "this recursive component is reachable from the API and has no depth guard: input that nests deeply enough overflows the Go stack, which is fatal for the host process and cannot be recovered")
 	}
+}
+
+// structuralTreeWalk: every function of the component takes a syntax node
+// (parameter or receiver of a type of package ast) and every call back into
+// the component passes a field — or an element of a field — of that node.
+func structuralTreeWalk(comp []*ssa.Function) bool {
+	in := map[*ssa.Function]bool{}
+	for _, f := range comp {
+		in[f] = true
+	}
+	for _, f := range comp {
+		if f.Parent() != nil {
+			return false
+		}
+		// the node parameter: first parameter of an ast type
+		var node *ssa.Parameter
+		idx := -1
+		for i, pr := range f.Params {
+			if isASTish(pr.Type()) {
+				node, idx = pr, i
+				break
+			}
+		}
+		if node == nil {
+			return false
+		}
+		for _, b := range f.Blocks {
+			for _, ins := range b.Instrs {
+				cc := callOf(ins)
+				if cc == nil {
+					continue
+				}
+				var callee *ssa.Function
+				var arg ssa.Value
+				if cal := cc.StaticCallee(); cal != nil {
+					callee = cal
+					// the callee's node parameter
+					for i, pr := range cal.Params {
+						if isASTish(pr.Type()) && i < len(cc.Args) {
+							arg = cc.Args[i]
+							break
+						}
+					}
+				} else if cc.IsInvoke() {
+					// a method of the node interface invoked on a child: may re-enter the component
+					re := false
+					for g := range in {
+						if g.Name() == cc.Method.Name() {
+							re = true
+						}
+					}
+					if !re {
+						continue
+					}
+					arg = cc.Value
+					callee = f // treat as a call into the component
+				}
+				if callee == nil || !in[callee] {
+					continue
+				}
+				if arg == nil || directPart(arg, node, 0) != "" {
+					return false
+				}
+			}
+		}
+		_ = idx
+	}
+	return true
 }
 
 // recursionBoundedBy: components whose depth is bounded by a structure whose
